@@ -22,7 +22,7 @@ from ..core import Result, HarnessBug, crash_summary
 
 ID = "C08"
 LEVEL = "exploration"
-BUDGET = {"quick": 1060, "thorough": 53000}     # ~1/18 of the generated cases are thread cases
+BUDGET = {"quick": 1060, "thorough": 159000}     # ~1/18 of the generated cases are thread cases
 WORKERS = {"quick": 4, "thorough": 16}
 RULE = ("static part (exhaustive, enumerated): case = (built-in type object, order in cold|warm|others-first); all 30 "
         "classes x 8 entry points x every member are looked up and compared with a by-name scan of the raw type record; "
